@@ -25,6 +25,7 @@ const (
 	puList  // []T, T another carrier
 	puStruct
 	puErr // error: Bool (err != nil)
+	puPtr // rich groups: *T for a named struct T, carried as Option T (none = nil)
 )
 
 func (k puKind) unsigned() bool { return k == puU8 || k == puU16 || k == puU32 || k == puU64 }
@@ -89,8 +90,16 @@ func (c *puFn) kindOf(t types.Type) puKind {
 	case *types.Pointer:
 		if _, ok := u.Elem().Underlying().(*types.Struct); ok {
 			if _, ok := u.Elem().(*types.Named); ok {
+				if c.grp.g.rich && !(c.recv != nil && types.Identical(t, c.recv.Type())) {
+					return puPtr
+				}
 				return puStruct
 			}
+		}
+	case *types.Array:
+		// [N]uint8 as a whole value (arrays are values in Go): read, copied, passed on; never indexed or sliced
+		if b, ok := u.Elem().Underlying().(*types.Basic); ok && b.Kind() == types.Uint8 && c.grp.g.rich {
+			return puBytes
 		}
 	}
 	return puBad
@@ -115,6 +124,12 @@ func (c *puFn) leanType(t types.Type) (string, error) {
 		return "(List " + e + ")", nil
 	case puStruct:
 		return c.grp.structName(c, t)
+	case puPtr:
+		n, err := c.grp.structName(c, t)
+		if err != nil {
+			return "", err
+		}
+		return "(Option " + n + ")", nil
 	}
 	return "", fmt.Errorf("type %s is outside the translated subset", t)
 }
@@ -149,6 +164,8 @@ func (c *puFn) zero(t types.Type) (string, error) {
 		return "([] : " + lt[1:len(lt)-1] + ")", nil
 	case puStruct:
 		return c.structLit(t, nil)
+	case puPtr:
+		return "none", nil
 	}
 	return "", fmt.Errorf("type %s is outside the translated subset", t)
 }
@@ -160,10 +177,12 @@ func (c *puFn) structLit(t types.Type, given map[string]string) (string, error) 
 	if err != nil {
 		return "", err
 	}
-	st := n.Underlying().(*types.Struct)
+	fields, hasRest, err := c.grp.structFields(n)
+	if err != nil {
+		return "", err
+	}
 	var parts []string
-	for i := 0; i < st.NumFields(); i++ {
-		f := st.Field(i)
+	for _, f := range fields {
 		v, ok := given[f.Name()]
 		if !ok {
 			z, err := c.zero(f.Type())
@@ -173,6 +192,20 @@ func (c *puFn) structLit(t types.Type, given map[string]string) (string, error) 
 			v = z
 		}
 		parts = append(parts, puLeanIdent(f.Name())+" := "+v)
+	}
+	for g := range given {
+		found := false
+		for _, f := range fields {
+			if f.Name() == g {
+				found = true
+			}
+		}
+		if !found {
+			return "", fmt.Errorf("field %s of %s has no carrier", g, name)
+		}
+	}
+	if hasRest {
+		parts = append(parts, "rest_ := Go.Rest.zero")
 	}
 	return "({ " + strings.Join(parts, ", ") + " } : " + name + ")", nil
 }
